@@ -1156,6 +1156,10 @@ impl System for Cfg {
             }
         }
         let key = e.key();
+        // dead bytes of the receive buffer: not supposed to matter, but a defect can make them
+        // matter (stale bytes read as input), so a few representatives per state are kept
+        let tail = e.c.conn.verif_dead_tail();
+        let aux = if tail.iter().all(|b| *b == 0) { 0 } else { util::hash64(&[&tail]) | 1 };
         let enabled = e.enabled();
         let nontrivial = e.machine.partial_line_len() > 0 || e.machine.in_body() || e.twin.is_some();
         let obs = util::hash64(&[&e.obs_log, if self.stream.is_some() { &[] } else { &e.consumed }]);
@@ -1167,7 +1171,7 @@ impl System for Cfg {
             replay: json!({"engine": "connx", "config": self.to_json(), "actions": path.iter().map(|a| enc(*a)).collect::<Vec<_>>(),
                            "actions_readable": path.iter().map(|a| format!("{:?}", a)).collect::<Vec<_>>()}),
         });
-        Outcome { key, enabled, violation, obs, nontrivial, facts, impl_facts }
+        Outcome { key, enabled, violation, obs, nontrivial, facts, impl_facts, aux }
     }
     fn trace(&self, path: &[Act]) -> Value {
         let mut e = Exec::new(self, true);
